@@ -3,4 +3,3 @@ package main
 func stub(name string) string {
 	return "-- GENERATED placeholder (" + name + ")\nimport Rpcx.Basic\n"
 }
-
